@@ -1,0 +1,32 @@
+//go:build verif
+
+// Package verifhook provides instrumentation points used only by external
+// verification tooling (build tag "verif").
+package verifhook
+
+import "sync/atomic"
+
+// Enabled reports whether hooks are compiled in.
+const Enabled = true
+
+// Handler receives every instrumentation point that is reached. It may block
+// (the verification scheduler uses this to hold a goroutine at a point).
+type Handler func(point string, kv ...any)
+
+var handler atomic.Pointer[Handler]
+
+// SetHandler installs h (nil removes it).
+func SetHandler(h Handler) {
+	if h == nil {
+		handler.Store(nil)
+		return
+	}
+	handler.Store(&h)
+}
+
+// At marks an instrumentation point: kv are alternating keys and cheap scalar values.
+func At(point string, kv ...any) {
+	if h := handler.Load(); h != nil {
+		(*h)(point, kv...)
+	}
+}
